@@ -484,8 +484,14 @@ struct Tr {
     switch (op) {
       case Instruction::Add:
         return bin_u("+");
-      case Instruction::Sub:
+      case Instruction::Sub: {
+        // pointer difference: keep it a pointer subtraction (CBMC folds it for pointers into the same object; casts to integers are opaque)
+        auto* P0 = dyn_cast<PtrToIntOperator>(I->getOperand(0));
+        auto* P1 = dyn_cast<PtrToIntOperator>(I->getOperand(1));
+        if (P0 && P1 && T->isIntegerTy(64))
+          return "((" + t + ")LL2C_PDIFF(" + val(P0->getOperand(0)) + ", " + val(P1->getOperand(0)) + "))";
         return bin_u("-");
+      }
       case Instruction::Mul:
         return bin_u("*");
       case Instruction::UDiv:
@@ -581,6 +587,88 @@ struct Tr {
     return "";
   }
 
+  // ---------- typed memory operations ----------
+  // strips casts and constant GEPs: returns the base pointer value, the constant byte offset and the pointee type of the base
+  const Value* resolve_base(const Value* P, uint64_t& off, Type*& T)
+  {
+    off = 0;
+    T   = nullptr;
+    for (int guard = 0; guard < 16; guard++) {
+      if (auto* BC = dyn_cast<BitCastOperator>(P)) {
+        P = BC->getOperand(0);
+        continue;
+      }
+      if (auto* G = dyn_cast<GEPOperator>(P)) {
+        APInt O(64, 0);
+        if (!G->accumulateConstantOffset(DL, O) || O.isNegative())
+          break;
+        off += O.getZExtValue();
+        P = G->getPointerOperand();
+        continue;
+      }
+      break;
+    }
+    if (isa<Constant>(P) && !isa<GlobalVariable>(P))
+      return P;
+    if (auto* PT = dyn_cast<PointerType>(P->getType())) {
+      Type* E = PT->getPointerElementType();
+      if (E->isSized() && !E->isIntegerTy(8) && !E->isFunctionTy())
+        T = E;
+    }
+    return P;
+  }
+  // zero (src empty) or copy the byte range [off, off+n) of an lvalue of type T, field by field; false if a scalar is only partly covered
+  bool range_op(const std::string& dst, const std::string& src, Type* T, uint64_t off, uint64_t n, std::vector<std::string>& out)
+  {
+    uint64_t size = DL.getTypeAllocSize(T);
+    if (n == 0)
+      return true;
+    if (off + n > size)
+      return false;
+    if (off == 0 && n == size) {
+      if (src.empty()) {
+        if (T->isStructTy() || T->isArrayTy())
+          out.push_back(dst + " = (" + ty(T) + "){0}");
+        else if (T->isFloatingPointTy())
+          out.push_back(dst + " = 0.0");
+        else
+          out.push_back(dst + " = (" + ty(T) + ")0");
+      } else
+        out.push_back(dst + " = " + src);
+      return true;
+    }
+    if (auto* ST = dyn_cast<StructType>(T)) {
+      const StructLayout* SL = DL.getStructLayout(ST);
+      for (unsigned i = 0; i < ST->getNumElements(); i++) {
+        uint64_t fo = SL->getElementOffset(i), fs = DL.getTypeAllocSize(ST->getElementType(i));
+        uint64_t lo = std::max(off, fo), hi = std::min(off + n, fo + fs);
+        if (lo >= hi)
+          continue;
+        std::string f = ".f" + std::to_string(i);
+        if (!range_op(dst + f, src.empty() ? src : src + f, ST->getElementType(i), lo - fo, hi - lo, out))
+          return false;
+        if (out.size() > 128)
+          return false;
+      }
+      return true;
+    }
+    if (auto* AT = dyn_cast<ArrayType>(T)) {
+      uint64_t es = DL.getTypeAllocSize(AT->getElementType());
+      if (es == 0)
+        return false;
+      for (uint64_t i = off / es; i < AT->getNumElements() && i * es < off + n; i++) {
+        uint64_t lo = std::max(off, i * es), hi = std::min(off + n, (i + 1) * es);
+        std::string f = ".a[" + std::to_string(i) + "]";
+        if (!range_op(dst + f, src.empty() ? src : src + f, AT->getElementType(), lo - i * es, hi - lo, out))
+          return false;
+        if (out.size() > 128)
+          return false;
+      }
+      return true;
+    }
+    return false; // scalar partly covered
+  }
+
   // ---------- calls ----------
   static bool is_libc(StringRef n)
   {
@@ -604,8 +692,36 @@ struct Tr {
         case Intrinsic::memset: {
           auto id          = F->getIntrinsicID();
           const char* base = id == Intrinsic::memcpy ? "memcpy" : id == Intrinsic::memmove ? "memmove" : "memset";
-          if (isa<ConstantInt>(CB->getArgOperand(2)))
+          if (auto* LEN = dyn_cast<ConstantInt>(CB->getArgOperand(2))) {
+            // constant length: try a typed, field-wise translation (byte-wise models lose the values of pointers and vptrs in CBMC)
+            uint64_t n = LEN->getZExtValue();
+            std::vector<std::string> st;
+            bool ok = false;
+            if (n == 0)
+              return "";
+            if (id == Intrinsic::memset) {
+              auto* CV = dyn_cast<ConstantInt>(CB->getArgOperand(1));
+              uint64_t off;
+              Type* RT2;
+              const Value* B0 = resolve_base(CB->getArgOperand(0), off, RT2);
+              if (CV && CV->isZero() && RT2)
+                ok = range_op("(*" + val(B0) + ")", "", RT2, off, n, st);
+            } else {
+              uint64_t o1, o2;
+              Type *T1, *T2;
+              const Value* B1 = resolve_base(CB->getArgOperand(0), o1, T1);
+              const Value* B2 = resolve_base(CB->getArgOperand(1), o2, T2);
+              if (T1 && T1 == T2 && o1 == o2)
+                ok = range_op("(*" + val(B1) + ")", "(*" + val(B2) + ")", T1, o1, n, st);
+            }
+            if (ok && !st.empty() && st.size() <= 128) {
+              std::string r = "(";
+              for (size_t i = 0; i < st.size(); i++)
+                r += (i ? ", " : "") + st[i];
+              return r + ")";
+            }
             return std::string(base) + "(" + arg(0) + ", " + arg(1) + ", " + arg(2) + ")";
+          }
           // symbolic length: typed, capacity-bounded element loop instead of CBMC's array-theory model
           Type* ET = nullptr;
           for (unsigned k = 0; k < (id == Intrinsic::memset ? 1u : 2u) && !ET; k++) {
@@ -1094,6 +1210,8 @@ struct Tr {
     O << "#ifndef __CPROVER__\n#include \"ll2c_native.h\"\n#endif\n";
     O << "#ifdef __CPROVER__\nstatic void ll2c_trap(void) { __CPROVER_assert(0, \"llvm.trap reached\"); __CPROVER_assume(0); }\n"
          "static void ll2c_unreachable(void) { __CPROVER_assert(0, \"llvm unreachable reached\"); __CPROVER_assume(0); }\n#endif\n";
+    O << "#ifdef __CPROVER__\n#define LL2C_PDIFF(a, b) (__CPROVER_same_object((a), (b)) ? (unsigned long)(__CPROVER_POINTER_OFFSET(a) - __CPROVER_POINTER_OFFSET(b)) "
+         ": (unsigned long)(a) - (unsigned long)(b))\n#else\n#define LL2C_PDIFF(a, b) ((unsigned long)(a) - (unsigned long)(b))\n#endif\n";
     O << "static void ll2c_witness(void)\n{\n#ifdef LL2C_WITNESS\n  __CPROVER_assert(0, \"witness reachable\");\n#endif\n}\n";
     O << "#ifndef LL2C_CAP\n#define LL2C_CAP 8UL\n#endif\n";
     O << "static inline unsigned long ll2c_cap(unsigned long n) { __CPROVER_assert(n <= LL2C_CAP, \"allocation capacity bound\"); return LL2C_CAP; }\n";
